@@ -252,6 +252,7 @@ func init() {
 		Assumptions: []string{"region start keys short enough for a legal meta row (HBase MAX_ROW_LENGTH)", "layer 2 (wire) uses the simulated cluster as HBase model"},
 		Quick:       60 * time.Second, Thorough: 10 * time.Minute,
 		Direct: c01Direct,
+		Units:  c01WUnits,
 	})
 }
 
